@@ -390,4 +390,16 @@ theorem arithmetic_shr_signed (bits : ℕ) (a : List ℕ) (s : ℕ) (ha : Canon 
         rw [Int.ediv_eq_iff_of_pos hs2]; constructor <;> nlinarith
       rw [hneg]; ring
 
+/-- left shift moves bits exactly: bit `i` of `a << s` is bit `i − s` of `a` for `s ≤ i < bits`,
+    and clear otherwise. -/
+theorem shl_testBit (bits : ℕ) (a : List ℕ) (s i : ℕ) (ha : Canon bits a) :
+    (val (wrappingShl bits a s)).testBit i
+      = (decide (i < bits) && (decide (s ≤ i) && (val a).testBit (i - s))) := by
+  rw [(wrapping_shl_spec bits a s ha).2, Nat.testBit_mod_two_pow, Nat.testBit_mul_two_pow]
+
+/-- right shift moves bits exactly: bit `i` of `a >> s` is bit `i + s` of `a`. -/
+theorem shr_testBit (bits : ℕ) (a : List ℕ) (s i : ℕ) (ha : Canon bits a) :
+    (val (wrappingShr bits a s)).testBit i = (val a).testBit (i + s) := by
+  rw [(wrapping_shr_spec bits a s ha).2, Nat.testBit_div_two_pow]
+
 end Ruint.C05
